@@ -109,7 +109,7 @@ func handle(in []byte) []byte {
 			select {
 			case <-c.Closed:
 				rs.Closed = true
-			case <-time.After(10 * time.Second):
+			case <-time.After(60 * time.Second): // earlier requests of the stream (thousands of subscriptions) may still be processed
 			}
 		}
 		c.Conn.Close()
